@@ -38,6 +38,16 @@ CHECKS = {
    "Every record of a small-scope catalogue (all content types, 1..4 messages) with every single (quick) / double (thorough) deviation, all 256 content types, all 65536 alerts, all heartbeat types and every payload string up to the stated length is parsed one-step and two-step and compared with an independent strict decoder (values with slice positions, consumption, rejection rules) and with each other.",
    "Trusted: the strict walkers (vcommon/src/reference/wire.rs, DESIGN appendix D), calibrated on every run against the undeviated catalogue. Inputs the grammar leaves open are classified Unspecified and only checked for agreement between one-step and two-step parsing.",
    "DESIGN.md section 3 C03, appendix D"),
+ "C04": (True, "exploration",
+   "bounded-exhaustive small-scope enumeration: catalogue of the 17 handshake variants x all combinations of <= d deviations, complete 1-D field sweeps, positional-alphabet strings and hello frames, against strict reference walkers",
+   "Every catalogue message (boundary domains of every field) with every single (quick) / double (thorough) lying length, cut and suffix is parsed at message level and through each pub body parser; enumerated fields are swept over their complete domains; all strings up to the stated length over positional alphabets and all hello tails are covered. Values are compared field by field including slice positions; the named rejection rules must reject.",
+   "Trusted: strict walkers (DESIGN appendix D). Encodings the grammar leaves open are Unspecified and not compared. Bounds (alphabets, lengths, deviation count) are reported in the evidence.",
+   "DESIGN.md section 3 C04, appendix D"),
+ "C05": (True, "exploration",
+   "complete sweep of all 65536 extension types x content catalogue through all 22 extension parsers, plus small-scope enumeration of contents and lists with deviations, against an IANA-keyed reference decoder",
+   "All 65536 types are pushed through the three dispatchers, the unknown parser and the 16 tag-specific parsers; every known type's well-formed contents with every deviation, every content string up to the stated length and every list of <= k catalogue extensions are decoded and compared with the reference; tag == wire type, pairwise dispatcher agreement and tag-parser exclusivity are checked on every case.",
+   "Trusted: reference extension grammar (DESIGN appendix D) and the RFC 8701 GREASE set. Which known types the client/server dispatchers decode is not prescribed (undecoded known types must be preserved as Unknown).",
+   "DESIGN.md section 3 C05, appendix D"),
 }
 PENDING_REASON = "check not built yet in this round (work in progress; see DESIGN.md appendix C for the build order)"
 
